@@ -4,6 +4,7 @@ import (
 	"bytes"
 	"encoding/hex"
 	"fmt"
+	"math/big"
 	"strings"
 
 	"errors"
@@ -36,6 +37,44 @@ func lengthMustFail(pref string, L, n int) bool {
 		return n != L
 	}
 	return n > L || n > s.capacity()
+}
+
+// announcedLength reads the length a variable-length prefix announces without the library: Binary.L* big-endian over
+// all its bytes, ASCII.L* decimal digits, Hex.L* two hexadecimal characters per L
+func announcedLength(pref string, data []byte) (*big.Int, bool) {
+	dot := strings.Index(pref, ".")
+	if dot < 0 || strings.HasSuffix(pref, "Fixed") {
+		return nil, false
+	}
+	fam, k := pref[:dot], len(pref)-dot-1
+	if strings.Trim(pref[dot+1:], "L") != "" || k == 0 {
+		return nil, false
+	}
+	switch fam {
+	case "Binary":
+		if len(data) < k {
+			return nil, false
+		}
+		return new(big.Int).SetBytes(data[:k]), true
+	case "ASCII":
+		if len(data) < k {
+			return nil, false
+		}
+		for _, c := range data[:k] {
+			if c < '0' || c > '9' {
+				return nil, false
+			}
+		}
+		n, ok := new(big.Int).SetString(string(data[:k]), 10)
+		return n, ok
+	case "Hex":
+		if len(data) < 2*k {
+			return nil, false
+		}
+		n, ok := new(big.Int).SetString(string(data[:2*k]), 16)
+		return n, ok
+	}
+	return nil, false
 }
 
 func init() {
@@ -163,6 +202,11 @@ func init() {
 				units = len(x.Value())
 			case *field.Hex:
 				units = len(x.Value()) / 2
+			}
+			// the length the wire announces, read independently of the library's prefixers (big-endian bytes, decimal
+			// or hexadecimal numerals): nothing above the declared maximum may be accepted, whatever the value then holds
+			if ann, ok := announcedLength(pref, d.Hex()); ok && L > 0 && ann.Cmp(big.NewInt(int64(L))) > 0 {
+				fs = append(fs, Finding{"c08-unpack-accepts-announced:" + pref, fmt.Sprintf("Unpack accepts a field whose prefix announces %s units, declared maximum %d", ann.String(), L)})
 			}
 			if units > L && !(pref == "BerTLV" && L == 0) {
 				fs = append(fs, Finding{"c08-unpack-accepts:" + pref, fmt.Sprintf("Unpack accepts a value of %d units for a field declared with maximum %d", units, L)})
